@@ -185,6 +185,8 @@ pub const URIS_TINY: &[&str] = &["", "u"];
 
 pub const PREFIXES: &[&str] = &["", "p", "q", "r", "n0", "n1"];
 pub const PREFIXES_TINY: &[&str] = &["", "p"];
+/// with multi-byte prefixes (byte offsets != character offsets in qualified names)
+pub const PREFIXES_WIDE: &[&str] = &["", "p", "q", "r", "n0", "n1", "é", "пр", "名"];
 
 #[derive(Clone, Copy, Debug, PartialEq, Eq)]
 pub enum Scoping {
@@ -217,6 +219,8 @@ pub struct TreeOpts {
     pub xml_ids: bool,
     /// re-declare in-scope bindings and add alias prefixes (material for deduplication)
     pub redundant_decls: bool,
+    /// prefix pool includes non-ASCII prefixes
+    pub wide_prefixes: bool,
 }
 
 impl TreeOpts {
@@ -236,6 +240,7 @@ impl TreeOpts {
             raw_text: false,
             xml_ids: false,
             redundant_decls: false,
+            wide_prefixes: false,
         }
     }
     pub fn tiny(max_nodes: usize) -> Self {
@@ -254,6 +259,7 @@ impl TreeOpts {
             raw_text: false,
             xml_ids: false,
             redundant_decls: false,
+            wide_prefixes: false,
         }
     }
 }
@@ -283,6 +289,7 @@ fn uris(o: &TreeOpts) -> Vec<&'static str> {
 fn prefixes(o: &TreeOpts) -> &'static [&'static str] {
     match o.names {
         Names::Tiny => PREFIXES_TINY,
+        _ if o.wide_prefixes => PREFIXES_WIDE,
         _ => PREFIXES,
     }
 }
